@@ -122,7 +122,8 @@ theorem stage_gateway (h : Fam c A B T q fs) (down : Downstream) (ids : List Str
     gateway c {} ⟨.query, "", [], [QL T q fs]⟩ none down
       = .ok ⟨some [(q, .arr (ids.map (fun i => J.obj (aOf i ++ bOf i))))], [], callsOf c A B T q fs ids⟩ := by
   have hex := stage_execute h down ids aOf bOf hq1 hq2 hids hA hB hb0
-  unfold gateway plan
+  rw [gateway_noVarDefs _ _ _ _ _ _ rfl]
+  unfold gatewayCore gatewayCoreWith plan
   simp only [stage_sanitize h, bind, Except.bind, stage_plan h, hex, id]
   have := stage_scrub T q ids (fun i => aOf i ++ bOf i) hd
   have hfun : elemAB aOf bOf = fun i => J.obj (("id", .str i) :: (aOf i ++ bOf i)) := rfl
